@@ -84,13 +84,24 @@ def linear_script(behaviours):
 # ------------------------------------------------------------------------------------------
 def signature(ev, before):
     """stable description of a rejected event: action + the argument classes that matter.
-    `before` = the events of the same operation path that precede it (to know whether the ring was empty)"""
+    `before` = the events of the same operation path that precede it"""
     e = ev.get("e")
-    empty_before = before[-1].get("empty") if before else True
     if e == "alloc":
         if not ev.get("r"):
-            return "alloc:refused:%s:size%s" % ("empty" if empty_before else "nonempty",
-                                                "<Size" if ev["size"] < ev.get("_Size", 1 << 30) else ">=Size")
+            # where did the PDU released last end (that is where the pointers of an empty ring still stand)?
+            size, live, p = ev.get("_Size", 0), [], 0
+            for b in before:
+                if b["e"] == "Reset":
+                    live, p = [], 0
+                elif b["e"] == "push":
+                    live.append((b["off"], b["len"]))
+                elif b["e"] == "pop" and b.get("r") and live:
+                    off, ln = live.pop(0)
+                    p = off + ln
+            if live:
+                return "alloc:refused:nonempty"
+            stale = ev["size"] > size - p and ev["size"] >= p and ev["size"] <= size - 1
+            return "alloc:refused:empty:%s" % ("stale_pointer" if stale else "other")
         return "alloc:granted:%s" % ("bad_w" if ev.get("w") else "region")
     if e == "push":
         return "push:%s" % ("w" if ev.get("w") else "obs")
@@ -206,7 +217,7 @@ def run(c):
         "an empty ring takes every PDU of up to Size - 1 bytes (class documentation)",
         "nRF encrypted layout: the real bluetoe::nrf_details::encrypted_pdu_layout from nrf.hpp, included over the stub "
         "harness/pduring/stubs/nrf.h (no register of the stub is ever used)"]
-    exe = vlib.build(c, "pduring", ["pduring/pduring_harness.cpp"],
+    exe = vlib.build(c, "pduring", ["pduring/pduring_harness.cpp", "pduring/sanitizer_hooks.cpp"],
                      includes=["-I" + vlib.REPO + "/bluetoe/bindings/nordic/include", "-I" + vlib.HARNESS + "/pduring/stubs"])
     if c.replay:
         return replay(c, exe)
